@@ -1,7 +1,7 @@
 """C19 -- a function is only produced for a fully initialised and stepped network.
 
 Bounded real histories (all sequences up to the length bound, SX and MX) over
-   step(T1) | step(T2) | init(L1) | init(O1) | init(destination) | add ramp O2 at N2 | add branch N2-L3->N4+D2
+   step(T1) | step(T2) | a step that fails after its initialisation phase (tau forgotten) | init(L1) | init(O1) | init(destination) | add ramp O2 at N2 | add branch N2-L3->N4+D2
    | replace the destination by a congested one | compile(level 0|1|2)
 on a valid two-link network (metered ramp, free destination that can be replaced by a congested one).  A small abstract model tracks
 per element {uninitialised, initialised, stepped-current, stepped-stale}.  At every compile:
@@ -24,7 +24,7 @@ from vlib.topo import LinkSpec, Topo
 
 PID = "C19"
 T1, T2 = 1 / 256, 1 / 128
-OPS = ["step(T1)", "step(T2)", "init(L1)", "init(O1)", "init(D1)", "add_ramp", "add_branch", "replace_dest", "compile(0)", "compile(1)", "compile(2)"]
+OPS = ["step(T1)", "step(T2)", "step_fail", "init(L1)", "init(O1)", "init(D1)", "add_ramp", "add_branch", "replace_dest", "compile(0)", "compile(1)", "compile(2)"]
 
 
 def topo_for(has_ramp, has_branch, dest="D1"):
@@ -77,6 +77,24 @@ class World:
 
     def apply(self, op):
         """execute op for real and update the model.  returns (kind, payload)."""
+        if op == "step_fail":
+            # tau is forgotten: every element is (re-)initialised, the origins are stepped, the first link raises
+            kw = self.kw(T1)
+            kw.pop("tau")
+            try:
+                self.net.step(engine=self.engine, **kw)
+                return "skip", None
+            except TypeError:
+                pass
+            for e in self.present:
+                if e[0] == "O":
+                    self.status[e] = "current"
+                elif e[0] == "L":
+                    self.status[e] = "stale" if self.status[e] in ("current", "stale") else "init"
+                else:
+                    self.status[e] = "init" if self.has_vars(e) else self.status[e]
+            self.lastT = T1
+            return "ok", None
         if op.startswith("step"):
             T = T1 if "T1" in op else T2
             self.net.step(engine=self.engine, **self.kw(T))
